@@ -1,4 +1,4 @@
 SPECIFICATION TraceSpec
-INVARIANTS NoPanic HarnessRange C01_Conservation
+INVARIANTS NoPanic HarnessRangeExact C01_Conservation
 POSTCONDITION Accepted
 CHECK_DEADLOCK FALSE
